@@ -33,20 +33,7 @@ package common
 
 // ───────────── transaction.go ─────────────
 
-//@ func (tx *SignedTransaction) TransactionType
-//@   property C05
-//@   requires tx != nil && InputsOK(&tx.Transaction) && OutputsOK(&tx.Transaction)
-//@   modifies nothing
-//@   ensures [mint] result == TransactionTypeMint ==> exists k int :: 0 <= k && k < len(tx.Inputs) && tx.Inputs[k].Mint != nil && (forall j int :: 0 <= j && j < k ==> PlainInput(tx.Inputs[j]))
-//@   ensures [deposit] result == TransactionTypeDeposit ==> exists k int :: 0 <= k && k < len(tx.Inputs) && tx.Inputs[k].Mint == nil && tx.Inputs[k].Deposit != nil && (forall j int :: 0 <= j && j < k ==> PlainInput(tx.Inputs[j]))
-//@   ensures [plain] result != TransactionTypeMint && result != TransactionTypeDeposit && result != TransactionTypeUnknown ==> PlainInputs(&tx.Transaction)
-//@   ensures [node] PlainInputs(&tx.Transaction) && len(tx.Outputs) >= 1 ==>
-//@       (tx.Outputs[0].Type == OutputTypeNodePledge ==> result == TransactionTypeNodePledge) &&
-//@       (tx.Outputs[0].Type == OutputTypeNodeAccept ==> result == TransactionTypeNodeAccept) &&
-//@       (tx.Outputs[0].Type == OutputTypeNodeRemove ==> result == TransactionTypeNodeRemove)
-//@   loop 0 invariant forall j int :: 0 <= j && j <= rangeindex ==> PlainInput(tx.Inputs[j])
-//@   loop 1 invariant PlainInputs(&tx.Transaction)
-//@   loop 1 invariant forall j int :: 0 <= j && j <= rangeindex ==> !NodeKind(tx.Outputs[j].Type)
+//@ -- (*SignedTransaction).TransactionType: contract merged into zz_contracts_c28_verif.go (properties C28, C05)
 
 //@ spec NodeKind(t mathint) bool = t == OutputTypeNodePledge || t == OutputTypeNodeAccept || t == OutputTypeNodeRemove
 //@ spec PlainInput(in *Input) bool = in.Mint == nil && in.Deposit == nil && isnil(in.Genesis)
@@ -137,6 +124,7 @@ package common
 //@   ensures [S7-custodian-exists] err == nil && ts >= CustodianGenesis(recv) ==> result0 != nil
 //@   ensures [S8-custodian-wf] err == nil && result0 != nil ==> result0.Custodian != nil && (forall i int :: 0 <= i && i < len(result0.Nodes) ==> result0.Nodes[i] != nil)
 //@   ensures [S10-custodian-unique] err == nil && result0 != nil ==> CustodianKeysUnique(result0.Nodes)
+//@   ensures [S11-custodian-named] err == nil ==> result0 == CurrentCustodian(recv, ts) -- C34: names the record the store answers with (zz_contracts_c34_verif.go)
 //@ assume func (s AssetReader) ReadAssetWithBalance(id)
 //@   modifies nothing
 //@   ensures [S9-balance] err == nil && result0 != nil ==> val(result1) >= 0
@@ -284,34 +272,12 @@ package common
 
 // ───────────── custodian.go ─────────────
 
-//@ func (cn *CustodianNode) validate
-//@   property C05
-//@   requires cn != nil && len(cn.Extra) == custodianNodeExtraSize
-//@   modifies nothing
+//@ -- func (cn *CustodianNode) validate: contract in zz_contracts_c34_verif.go (properties C34, C05)
 
-//@ func parseCustodianNode
-//@   property C05
-//@   modifies nothing
-//@   ensures err == nil ==> result0 != nil
+//@ -- func parseCustodianNode: contract in zz_contracts_c34_verif.go (properties C34, C05)
 
-//@ func ParseCustodianUpdateNodesExtra$1
-//@   property C05
-//@   requires (forall k int :: 0 <= k && k < len(nodes) ==> nodes[k] != nil) && 0 <= i && i < len(nodes) && 0 <= j && j < len(nodes)
-//@   pure
-//@   ensures result <==> lexlt(nodes[i].Custodian.PublicSpendKey, nodes[j].Custodian.PublicSpendKey)
+//@ -- func ParseCustodianUpdateNodesExtra$1: contract in zz_contracts_c34_verif.go (properties C34, C05)
 
-//@ func ParseCustodianUpdateNodesExtra
-//@   property C05
-//@   modifies nothing
-//@   ensures [ok] err == nil ==> result0 != nil && result0.Custodian != nil && result0.Signature != nil && len(extra) >= 64 + custodianNodeExtraSize * custodianNodesMinimumCount + 64 &&
-//@       (forall k int :: 0 <= k && k < len(result0.Nodes) ==> result0.Nodes[k] != nil)
-//@   loop 0 invariant forall k int :: 0 <= k && k <= rangeindex ==> nodes[k] != nil
-//@   loop 1 invariant isnil(sortedExtra) || fresh(sortedExtra)
+//@ -- func ParseCustodianUpdateNodesExtra: contract in zz_contracts_c34_verif.go (properties C34, C05)
 
-//@ func (tx *Transaction) validateCustodianUpdateNodes
-//@   property C05
-//@   requires tx != nil && store != nil && OutputsOK(tx)
-//@   modifies nothing
-//@   loop 0 invariant len(filter) == rangeindex + 1
-//@   loop 0 invariant forall j int :: rangeindex < j && j < len(prev.Nodes) ==> !has(filter, prev.Nodes[j].Custodian.String())
-//@   loop 1 invariant val(total) >= 0
+//@ -- func (tx *Transaction) validateCustodianUpdateNodes: contract in zz_contracts_c34_verif.go (properties C34, C05)
